@@ -34,7 +34,10 @@ def preflight():
         out['fakefasta_vs_pysam'] = 'fetch semantics identical incl. truncation and ValueError (%s)' % cands[0]
     else:
         out['fakefasta_vs_pysam'] = 'no indexed fasta in /repo/data: contract not validated this run'
-    return out
+    from stubs.validate import validate_fakeread
+    out_ = out
+    out_.update(validate_fakeread(300))
+    return out_
 
 
 def _l1_context(w0: int, w1: int, w2: int, pos: int, g: bool, obs: int, pad: int, lc: int) -> bool:
